@@ -1549,3 +1549,18 @@ Proof.
   intros Hr. apply hello_parses_denotes; [exact Hp|].
   unfold rfc_hello in Hr. destruct (h_exts h); [now apply rfc_well_listed|exact I].
 Qed.
+
+(* RFC 5246 7.4.1.2 / RFC 8446 4.1.2, legacy_session_id<0..32>: a hello whose session id
+   length byte exceeds 32 is never parsed, whatever follows (crypto/tls's unmarshal does not
+   enforce this bound; the property's "malformed input is rejected" does) *)
+Lemma long_session_id_rejected (d : str) (sl : N) (n : str) :
+  idx d 38 = Ok sl -> (32 < sl)%N -> unmarshal d <> Ok n.
+Proof.
+  intros Hi Hl. unfold unmarshal.
+  destruct (42 <=? nlen d)%N; [|discriminate].
+  destruct (u16 d 4) as [v|k|]; cbn [bind]; try discriminate.
+  destruct (slice d 6 38) as [r|k|]; cbn [bind]; try discriminate.
+  rewrite Hi. cbn [bind].
+  replace (sl <=? 32)%N with false by (symmetry; apply N.leb_gt; exact Hl).
+  cbn [andb]. discriminate.
+Qed.
